@@ -40,13 +40,18 @@ class Containers(object):
         nc = len(cols)
         if kind == 'array-int':
             x = np.array(mat, dtype=np.uint16)
+        elif kind == 'array-int8':
+            x = np.array(mat, dtype=np.uint8)
         elif kind == 'array-float':
             x = np.array(mat, dtype=np.float64)
         else:
             path = os.path.join(self.dir, 's.fcs')
             dt = 'F' if kind == 'sample-float32' else 'I'
             vals = [[float(v) for v in row] for row in mat] if dt == 'F' else mat
-            fcsgen.write_sample(path, vals, ['c%d' % i for i in range(nc)], [65536] * nc, bits=16, datatype=dt, pne=['0,0'] * nc)
+            if kind == 'sample-int8':
+                fcsgen.write_sample(path, vals, ['c%d' % i for i in range(nc)], [256] * nc, bits=8, datatype=dt, pne=['0,0'] * nc)
+            else:
+                fcsgen.write_sample(path, vals, ['c%d' % i for i in range(nc)], [65536] * nc, bits=16, datatype=dt, pne=['0,0'] * nc)
             with warnings.catch_warnings():
                 warnings.simplefilter('ignore')
                 x = FlowCal.io.FCSData(path)
